@@ -33,6 +33,9 @@ def run(ctx):
     ctx.rule("R02-5", "wait_fg_job: status written only from ws.get_status() under pid == *pids.last(); loop exits "
                       "are {ECHILD, waitpid error, count_waited >= count_child}; counter increments exactly under "
                       "fg-child and not continued; get_status = exit code else 128+signal")
+    ctx.rule("R02-6", "every stage is started once and the shell is not duplicated: run_single_program has one fork() "
+                      "call site, outside every loop; the code reachable from the Child arm contains no return and no "
+                      "edge back into the shell's code - every maximal path ends in process::exit")
     for crate in ctx.crates:
         pl = crate.fn("core::run_pipeline")
         body = crate.fn("core::run_single_program")
@@ -75,6 +78,7 @@ def run(ctx):
                 ctx.ob("R02-3", body.path, "%s %s in the parent after fork" % (o["id"], o["desc"]), not bad,
                        key="R02-3|%s|%s %s" % (body.path, o["id"], o["desc"]), crate=crate.kind,
                        detail="the reader of that pipe never sees EOF" if bad else None)
+        fork_rule(ctx, crate, body)
         wait_fg_rules(ctx, crate, wj)
         status_const_rule(ctx, crate)
 
@@ -335,3 +339,51 @@ def status_const_rule(ctx, crate):
                     ok_sig = True
     ctx.ob("R02-5", gs.path, "get_status = exit code when exited, else 128 + signal", ok_exit and ok_sig,
            key="R02-5|%s|constants" % gs.path, crate=crate.kind)
+
+
+def fork_rule(ctx, crate, body):
+    forks = [bb for bb, t, c in body.calls() if last_seg(c) == "fork"]
+    inloop = [bb for bb in forks if any(bb in blocks for blocks in body.loops().values())]
+    ctx.ob("R02-6", body.path, "one fork() call site, not inside a loop", len(forks) == 1 and not inloop,
+           key="R02-6|%s|fork-site" % body.path, where=body.loc(forks[0]) if forks else None, crate=crate.kind,
+           detail=None if len(forks) == 1 and not inloop else "%d fork site(s), %d in a loop" % (len(forks), len(inloop)))
+    # entry of the child region: target of the switch edge ForkResult::Child on the fork result
+    entries = []
+    for bb in sorted(body.reachable):
+        for tgt, atom, val in body.switch_edges(bb):
+            if val == "Child" and atom[0] == "discr":
+                entries.append(tgt)
+    if not ctx.require(bool(entries), "R02-6", "R02-6|%s|child-arm" % body.path, "no ForkResult::Child arm found", body.path):
+        return
+    region, todo = set(), list(entries)
+    while todo:
+        x = todo.pop()
+        if x in region:
+            continue
+        region.add(x)
+        todo.extend(body.succs[x])
+    # the shell's code: everything reachable from the entry without taking the Child edge
+    shell, todo = set(), [0]
+    while todo:
+        x = todo.pop()
+        if x in shell:
+            continue
+        shell.add(x)
+        for y in body.succs[x]:
+            if y in entries and any(tgt == y and val == "Child" for tgt, atom, val in body.switch_edges(x)):
+                continue
+            todo.append(y)
+    rets = sorted(bb for bb in region if body.term(bb)["k"] == "return")
+    ctx.ob("R02-6", body.path, "the child never returns from run_single_program", not rets,
+           key="R02-6|%s|child-return" % body.path, where=body.loc(rets[0]) if rets else None, crate=crate.kind,
+           detail=None if not rets else "a forked child that returns keeps running the shell's loop: the remaining stages "
+           "are started a second time and two shells read the same input")
+    shared = sorted(region & shell)
+    ctx.ob("R02-6", body.path, "no block is shared between the child's code and the shell's code", not shared,
+           key="R02-6|%s|child-joins-shell" % body.path, where=body.loc(shared[0]) if shared else None, crate=crate.kind)
+    ends = [bb for bb in region if not body.succs[bb]]
+    bad = [bb for bb in ends if not (body.term(bb)["k"] == "call" and body.callee(body.term(bb)).endswith("process::exit"))
+           and body.term(bb)["k"] != "unreachable"]
+    ctx.ob("R02-6", body.path, "every maximal path of the child ends in process::exit (%d ends)" % len(ends),
+           bool(ends) and not bad, key="R02-6|%s|child-ends" % body.path, where=body.loc(bad[0]) if bad else None,
+           crate=crate.kind)
